@@ -663,9 +663,16 @@ class _LoopGuards(ast.NodeTransformer):
         from .canon import negate
         out = []
         for i, st in enumerate(stmts):
-            if isinstance(st, ast.If) and not st.orelse and len(st.body) == 1 and isinstance(st.body[0], ast.Continue) and stmts[i + 1:]:
+            if isinstance(st, ast.If) and not st.orelse and st.body and isinstance(st.body[-1], ast.Continue) and stmts[i + 1:]:
                 rest = self._body(stmts[i + 1:])
-                new = ast.If(test=negate(st.test), body=rest, orelse=[])
+                if len(st.body) == 1:
+                    new = ast.If(test=negate(st.test), body=rest, orelse=[])
+                else:
+                    # `if c: A; continue` + REST  ->  `if c: A else: REST`
+                    new = ast.If(test=st.test, body=st.body[:-1], orelse=rest)
+                    from .canon import _is_negated
+                    if _is_negated(new.test):
+                        new = ast.If(test=negate(new.test), body=new.orelse, orelse=new.body)
                 ast.copy_location(new, st)
                 out.append(new)
                 return out
